@@ -136,6 +136,7 @@ PROPS = {
  },
  "C15": {
   "props_modules": ["Ps3.Props.C15"],
+  "needs_binary": True,
   "streams": [{"name": "c15", "timeout_quick": 300, "timeout_thorough": 1200}],
   "rule": "real iprange.FilterListener over real netutil.LimitListener (wrapped in the order of cmd/ps3netsrv-go/server.go) on loopback TCP. Whitelist: 20 (150) specifications over 127.0.0.0/8 (single, CIDR, mask, range, IPv4-mapped, foreign) x 12-14 client source addresses bound to 127.x.y.z at and around the block borders: served vs closed without a byte. "
           "Limit: N in 1..3 (1..8) with up to 4N clients in random arrival/departure orders mixed with rejected (non-whitelisted) arrivals; after every event the set of answered connections is compared with the model's",
